@@ -41,6 +41,10 @@ Proof. split; vm_compute; reflexivity. Qed.
 Lemma set_fields_sorted : forallb (fun e : string * string * (bool * bool) => fst (snd e) && snd (snd e)) set_fields = true.
 Proof. vm_compute. reflexivity. Qed.
 
+(* every attribute fixup.py assigns / rebuilds is compared by the structural walk of stage S *)
+Lemma fixup_covered : str_subset fixup_assigns walk_coverage = true.
+Proof. vm_compute. reflexivity. Qed.
+
 Definition jentry_ok (e : string * (op * op * list (list Z * jop))) : bool :=
   ops_match (fst (fst (snd e))) (snd (fst (snd e))) && jschema_ok (snd (snd e)).
 Lemma json_schemas_ok : forallb jentry_ok json_schemas = true.
